@@ -47,8 +47,8 @@ theorem unknown_atom_unchanged (rec rec' : Rec) (k : String) :
 
 /-- a raw text's contribution is the re-analysis of what the scanner finds in it – the same
     statement one level down -/
-theorem text_atom (rec' : Rec) (s : Option String) (cwd : String) (r : Bool) :
-    atomDecisions (withAllow w P pat) rec' h (.text s cwd r) = scanArg rec' s cwd r := rfl
+theorem text_atom (rec' : Rec) (ps : Bool) (s : Option String) (cwd : String) (r : Bool) :
+    atomDecisions (withAllow w P pat) rec' h (.text ps s cwd r) = scanArg rec' ps s cwd r := rfl
 
 theorem checkTargets_unchanged (cwd desc : String) (ts : List String) :
     checkTargets (withAllow w P pat) cwd desc ts = checkTargets w cwd desc ts := by
